@@ -25,6 +25,17 @@ type tA struct{ ID int }
 type tB struct{ ID int }
 type tC struct{ ID int }
 
+// further shapes of the second subscribed type (chosen per history from the number of steps): a
+// pointer event whose type name comes from a pointer-receiver method, and a value event with a
+// custom name
+type tBP struct{ ID int }
+
+func (*tBP) EventTypeName() string { return "c12.order.v1" }
+
+type tBN struct{ ID int }
+
+func (tBN) EventTypeName() string { return "c12.invoice" }
+
 type step struct {
 	K string `json:"k"` // pub, sub, restart
 	T int    `json:"t,omitempty"`
@@ -52,6 +63,7 @@ type rec struct {
 }
 
 type world struct {
+	shapeB    int // 0 plain struct, 1 pointer event with pointer-receiver TypeNamer, 2 value TypeNamer
 	kind      string
 	under     *stores.Opened
 	subMem    *ebu.MemoryStore // separate subscription store, when used
@@ -109,7 +121,14 @@ func (w *world) publish(typ int, foreign bool) {
 	case 0:
 		ebu.Publish(w.bus, tA{id})
 	case 1:
-		ebu.Publish(w.bus, tB{id})
+		switch w.shapeB {
+		case 1:
+			ebu.Publish(w.bus, &tBP{id})
+		case 2:
+			ebu.Publish(w.bus, tBN{id})
+		default:
+			ebu.Publish(w.bus, tB{id})
+		}
 	default:
 		ebu.Publish(w.bus, tC{id})
 	}
@@ -157,7 +176,14 @@ func (w *world) subscribe(s int) error {
 	case 0:
 		err = ebu.SubscribeWithReplay(ctx, w.bus, id, func(e tA) { w.deliver(s, e.ID, 0); w.maybeNested(s, e.ID, 0) })
 	case 1:
-		err = ebu.SubscribeWithReplay(ctx, w.bus, id, func(e tB) { w.deliver(s, e.ID, 1); w.maybeNested(s, e.ID, 1) })
+		switch w.shapeB {
+		case 1:
+			err = ebu.SubscribeWithReplay(ctx, w.bus, id, func(e *tBP) { w.deliver(s, e.ID, 1); w.maybeNested(s, e.ID, 1) })
+		case 2:
+			err = ebu.SubscribeWithReplay(ctx, w.bus, id, func(e tBN) { w.deliver(s, e.ID, 1); w.maybeNested(s, e.ID, 1) })
+		default:
+			err = ebu.SubscribeWithReplay(ctx, w.bus, id, func(e tB) { w.deliver(s, e.ID, 1); w.maybeNested(s, e.ID, 1) })
+		}
 	}
 	return err
 }
@@ -186,6 +212,9 @@ func openWorld(kind, scratch string) (*world, error) {
 
 func execute(kind, scratch string, steps []step, f faultSpec) (*result, error) {
 	w, err := openWorld(kind, scratch)
+	if w != nil {
+		w.shapeB = len(steps) % 3
+	}
 	if err != nil {
 		return nil, err
 	}
